@@ -1,5 +1,6 @@
 import MidoModel.Tables
 import MidoModel.Meta
+import MidoModel.Smf
 /-!
   Table tie: the tables extracted from the working tree on this run equal the model's.
   If the source tables change, one of these stops checking.
@@ -24,4 +25,14 @@ theorem tie_meta_specs : Generated.metaSpecs =
     MetaType.all.map (fun t => (t.typeByte, t.name, t.attrs)) := by decide
 theorem tie_keys : Generated.keySignatures = keyTable := by decide
 theorem tie_frame_rates : Generated.frameRates = frameRates := by decide
+end Mido
+
+namespace Mido
+theorem tie_realtime : Generated.realtimeTypes = realtimeTypeNames := by decide
+theorem tie_realtime_model : [S1.clock, .start, .continue_, .stop, .active_sensing, .reset].map S1.name
+    = ["clock", "start", "continue", "stop", "active_sensing", "reset"] ∧
+    ∀ k : S1, (FEv.msg (.sys1 k)).isRealtime = (k.name ∈ realtimeTypeNames) := by
+  refine ⟨by decide, ?_⟩
+  intro k; cases k <;> decide
+theorem tie_max_len : Generated.maxMessageLength = maxMessageLength := by decide
 end Mido
